@@ -64,6 +64,8 @@ def batches(ctx):
     b.nontrivial = lambda c, r: "error" not in r and bool(r.get("ext")) and len(r["ext"]) >= 2
     yield b
     uc = [c03.rand_case(rng, 5, 3, 4) for _ in range(300 if quick else 3000)]
+    # nested INHERIT chains (where decoding and the INHERIT cells matter) need >= 5 leaves on a caterpillar
+    uc += [c03.rand_case(rng, 6, 4, 4, chain=0.6) for _ in range(1500 if quick else 8000)]
     b = c03.make_batch("uspfs_exact", uc, "base/ext USPFS: ALL sets against the canonical optimal set")
     b.oracle = oracle_unordered_exact
     b.nontrivial = lambda c, r: bool(r.get("ext")) and len(r["ext"]) >= 2
@@ -94,6 +96,39 @@ def extra(ctx):
             ctx.findings.append(Finding("exact_sample", case, r, "(complete optimal set)", False, why))
             bad += 1
     ctx.notes.append(f"complete optimal sets checked on {n} random inputs, {bad} failures")
+
+
+def search(ctx):
+    """failing-input search: fresh inputs judged by the complete (canonical) optimal sets of the brute-force oracle alone"""
+    import time
+    rng = ctx.rng
+    t0 = time.time()
+    budget = 150 if ctx.quick() else 900
+    n = 0
+    broken = {f.batch for f in ctx.findings}
+    kinds = [k for k in ("thl_exact", "spfs_exact", "uspfs_exact") if k in broken] or ["thl_exact", "spfs_exact", "uspfs_exact"]
+    while time.time() - t0 < budget:
+        kind = kinds[n % len(kinds)]
+        n += 1
+        if kind == "thl_exact":
+            S = R.rand_shape(rng, rng.randint(2, 5))
+            case = {"S": S, "O": R.rand_otree(rng, rng.randint(2, 5), R.shape_leaves(S)), "costs": R.rand_costs(rng, plain=True)}
+            r = c01.impl_thl(case)
+            ok, why = c01.oracle_thl(case, r)
+        elif kind == "spfs_exact":
+            case = c02.rand_case(rng, 5, 3, 3)
+            r = c02.impl(case)
+            ok, why = c02.oracle(case, r)
+        else:
+            case = c03.rand_case(rng, 6, 4, 4, chain=0.7)
+            r = c03.impl(case)
+            ok, why = oracle_unordered_exact(case, r)
+        ctx.evaluations += 1
+        if ok is False:
+            ctx.notes.append(f"failing-input search: violation found after {n} fresh inputs")
+            return Finding(kind, case, r, "(complete optimal set)", False, why)
+    ctx.notes.append(f"failing-input search: {n} fresh inputs, none violates the property")
+    return None
 
 
 def known_signature(f, kf):
